@@ -59,30 +59,46 @@ impl SymbolSnapshot {
 }
 
 impl BinaryOp {
-    fn apply_i64(&self, lhs: i64, rhs: i64) -> i64 {
+    /// Applies the operation, or returns `None` if the result does not fit in 64 bits (or the shift count is invalid)
+    fn apply_i64(&self, lhs: i64, rhs: i64) -> Option<i64> {
+        let shift_count = || {
+            if (0..64).contains(&rhs) {
+                Some(rhs as u32)
+            } else {
+                None
+            }
+        };
         match self {
-            BinaryOp::Add => lhs + rhs,
-            BinaryOp::Sub => lhs - rhs,
-            BinaryOp::Mul => lhs * rhs,
+            BinaryOp::Add => lhs.checked_add(rhs),
+            BinaryOp::Sub => lhs.checked_sub(rhs),
+            BinaryOp::Mul => lhs.checked_mul(rhs),
             BinaryOp::Div => match rhs {
-                0 => 0,
-                _ => lhs / rhs,
+                0 => Some(0),
+                _ => lhs.checked_div(rhs),
             },
             BinaryOp::Mod => match rhs {
-                0 => 0,
-                _ => lhs % rhs,
+                0 => Some(0),
+                _ => lhs.checked_rem(rhs),
             },
-            BinaryOp::Shl => lhs << rhs,
-            BinaryOp::Shr => lhs >> rhs,
-            BinaryOp::Xor => lhs ^ rhs,
-            BinaryOp::Eq => (lhs == rhs) as i64,
-            BinaryOp::Ne => (lhs != rhs) as i64,
-            BinaryOp::Gt => (lhs > rhs) as i64,
-            BinaryOp::GtEq => (lhs >= rhs) as i64,
-            BinaryOp::Lt => (lhs < rhs) as i64,
-            BinaryOp::LtEq => (lhs <= rhs) as i64,
-            BinaryOp::And => (lhs != 0 && rhs != 0) as i64,
-            BinaryOp::Or => (lhs != 0 || rhs != 0) as i64,
+            BinaryOp::Shl => shift_count().and_then(|count| {
+                let result = lhs.checked_shl(count)?;
+                // Shifting back should give the original value, otherwise bits were lost
+                if (result >> count) == lhs {
+                    Some(result)
+                } else {
+                    None
+                }
+            }),
+            BinaryOp::Shr => shift_count().and_then(|count| lhs.checked_shr(count)),
+            BinaryOp::Xor => Some(lhs ^ rhs),
+            BinaryOp::Eq => Some((lhs == rhs) as i64),
+            BinaryOp::Ne => Some((lhs != rhs) as i64),
+            BinaryOp::Gt => Some((lhs > rhs) as i64),
+            BinaryOp::GtEq => Some((lhs >= rhs) as i64),
+            BinaryOp::Lt => Some((lhs < rhs) as i64),
+            BinaryOp::LtEq => Some((lhs <= rhs) as i64),
+            BinaryOp::And => Some((lhs != 0 && rhs != 0) as i64),
+            BinaryOp::Or => Some((lhs != 0 || rhs != 0) as i64),
         }
     }
 
@@ -169,7 +185,15 @@ impl<'a> Evaluator<'a> {
                                 }
                             }
                             if flags.contains(ExpressionFactorFlags::NEG) {
-                                number = -number;
+                                number = match number.checked_neg() {
+                                    Some(number) => number,
+                                    None => {
+                                        return self.error(
+                                            factor.span,
+                                            format!("the result of '-{}' does not fit in 64 bits", number),
+                                        )
+                                    }
+                                };
                             }
                             Ok(Some(number.into()))
                         }
@@ -183,7 +207,16 @@ impl<'a> Evaluator<'a> {
                 let rhs = self.evaluate_expression(&bin.rhs, track_usage)?;
                 match (lhs, rhs) {
                     (Some(SymbolData::Number(lhs)), Some(SymbolData::Number(rhs))) => {
-                        Ok(Some(bin.op.data.apply_i64(lhs, rhs).into()))
+                        match bin.op.data.apply_i64(lhs, rhs) {
+                            Some(result) => Ok(Some(result.into())),
+                            None => Err(EvaluationError {
+                                span: bin.op.span,
+                                message: format!(
+                                    "the result of '{} {} {}' does not fit in 64 bits",
+                                    lhs, bin.op.data, rhs
+                                ),
+                            }),
+                        }
                     }
                     (Some(SymbolData::String(lhs)), Some(SymbolData::String(rhs))) => {
                         match bin.op.data.try_apply_str(lhs, rhs) {
